@@ -3,43 +3,46 @@
 # Each line: patch, the checks it is run against, the acceptable exit codes.
 # "0" = the check must stay silent; "0,2" = silent or inconclusive (the variant
 # breaks the hook contract the index-level engine relies on), never an alarm.
+# Default: each variant against the checks it can touch; `run_audit.sh all`
+# runs every variant against all 18 (hours).
 cd "$(dirname "$0")/.."
 ALL=C01,C02,C03,C04,C05,C06,C07,C08,C09,C10,C11,C12,C13,C14,C15,C16,C17,C18
-run() { tools/selftest.py selftest/audit/$1.patch $2 --allow $3 2>&1 | grep -v "^    C"; }
-run bound1-no-read $ALL 0
-run hoisted-capone-draw $ALL 0
-run tokenize-rejects-unknown-token-type $ALL 0
-run tokenize-rejects-invalid-utf8 $ALL 0
-run capscheme-case-insensitive $ALL 0
-run empty-require-set-unsatisfiable C07 0
-run float32-arith-entropy $ALL 0
-run probe-exact-success-probability $ALL 0
-run c13-abandon-lost-candidate-early $ALL 0
-run c13-wl-list-check-after-cap-plan $ALL 0
-run c14-pointer-receivers-mutex-guarded-derived-sets $ALL 0
-run c16-csnone-is-zero-value $ALL 0
-run c16-newcharrecipe-empty-requiresets $ALL 0
-run c18-log-rejection-count $ALL 0
-run two-chars-per-draw $ALL 0
-run a01-early-abort $ALL 0
-run a02-n1-no-read $ALL 0
-run a03-trailing-sep-trimmed $ALL 0
-run a04-random-caps-one-draw $ALL 0
-run a05-separators-first $ALL 0
-run a06-reject-low-values $ALL 0
-run a09-wl-entropy-float64-skip-sep-when-no-gap $ALL 0
-run a11-small-recipes-pick-from-list $ALL 0
-run a13-undefined-flag-bits-rejected $ALL 0
-# changes that break ONE property: every other check must stay silent
-run a07-requiresets-sorted-in-place C01,C02,C03,C04,C05,C06,C07,C08,C09,C10,C11,C12,C13,C16,C17,C18 0
-run a08-one-more-trial C01,C02,C03,C04,C05,C06,C07,C08,C09,C10,C11,C12,C14,C15,C17,C18 0
+MODE=${1:-targeted}
+run() { ids=$2; [ "$MODE" = all ] && [ -z "$4" ] && ids=$ALL; tools/selftest.py selftest/audit/$1.patch $ids --allow $3 2>&1 | grep -v "^    C"; }
+run bound1-no-read C01,C02,C04,C05,C09,C10,C13,C16 0
+run a02-n1-no-read C01,C02,C04 0
+run hoisted-capone-draw C01,C04,C05,C06,C09,C10,C15 0
+run tokenize-rejects-unknown-token-type C11,C12 0
+run tokenize-rejects-invalid-utf8 C11,C12 0
+run capscheme-case-insensitive C05,C06,C08,C15,C17 0
+run empty-require-set-unsatisfiable C07 0 only
+run float32-arith-entropy C06,C07,C08 0
+run probe-exact-success-probability C07,C13,C16 0
+run c13-abandon-lost-candidate-early C02,C03,C06,C09,C13,C16,C18 0
+run a01-early-abort C02,C03,C06,C13 0
+run c13-wl-list-check-after-cap-plan C09,C13 0
+run c14-pointer-receivers-mutex-guarded-derived-sets C08,C14,C15,C17 0
+run c16-csnone-is-zero-value C05,C08,C13,C16,C17 0
+run c16-newcharrecipe-empty-requiresets C15,C16 0
+run c18-log-rejection-count C18 0
+run two-chars-per-draw C02,C03,C06,C07,C09,C13,C16,C18 0
+run a03-trailing-sep-trimmed C04,C05,C06,C09 0
+run a04-random-caps-one-draw C04,C05,C06 0
+run a05-separators-first C04,C05,C06 0
+run a06-reject-low-values C01,C09 0
+run a09-wl-entropy-float64-skip-sep-when-no-gap C04,C06,C08 0
+run a11-small-recipes-pick-from-list C02,C03,C06,C13,C16 0
+run a13-undefined-flag-bits-rejected C02,C03,C07 0
+# changes that break ONE property: the other checks must stay silent
+run a07-requiresets-sorted-in-place C02,C03 0 only
+run a08-one-more-trial C02,C06 0 only
 # variants that break the hook contract (announce-then-read one 32-bit word)
-run char-candidate-batch-read $ALL 0,2
-run read-one-byte-at-a-time $ALL 0,2
-run read8-use4 $ALL 0,2
-run a10-wl-reads-ahead-per-call $ALL 0,2
-# variants that depart from a documented reference (DESIGN 7): listed for the
-# record, run only against the checks that do not own that reference
-run kind4-sep-first-alternating C01,C02,C03,C04,C05,C06,C07,C08,C09,C10,C11,C13,C14,C15,C16,C17,C18 0
-run title-without-punctuation-rule C01,C02,C03,C06,C07,C09,C11,C12,C13,C14,C16,C18 0
-run c14-wl-password-entropy-summed-per-gap C01,C02,C03,C04,C05,C07,C08,C09,C10,C11,C12,C13,C15,C16,C17,C18 0
+run char-candidate-batch-read C02,C03,C09,C13 0,2
+run read-one-byte-at-a-time C01,C09 0,2
+run read8-use4 C01,C09 0,2
+run a10-wl-reads-ahead-per-call C01,C04,C06 0,2
+# variants that depart from a documented reference (DESIGN 7): only against
+# checks that do not own that reference
+run kind4-sep-first-alternating C11 0 only
+run title-without-punctuation-rule C11,C12 0 only
+run c14-wl-password-entropy-summed-per-gap C04,C08 0 only
